@@ -394,9 +394,9 @@ theorem cisco_netspoc_lines_kept (dev : Dev) (a : Conf) (f : File) (c : Conf) (w
   exact fold_grow dev true a.anchors f.table _ st f.anchors hst (safeRun_of_raw dev .new a.anchors f.table _ st f.anchors hst)
 
 /-- The same for an IPv6 file, if no new binding of it reuses the name of an existing ACL
-(`safeRun`, decidable; its failure is F-C18g); then also all lines of the IPv6 file are merged. -/
+(`safeMerge`, decidable; its failure is F-C18g); then also all lines of the IPv6 file are merged. -/
 theorem cisco_netspoc_lines_kept_partial (dev : Dev) (a : Conf) (f : File) (c : Conf) (w : List Nat)
-    (hsafe : safeRun dev .new f.isRaw a.anchors f.table { conts := a.conts, anchors := a.anchors } f.anchors = true)
+    (hsafe : safeMerge dev .new a f = true)
     (h : mergeCisco dev .new a f = .ok (c, w)) :
     (∀ n e, e ∈ linesOf a.conts n → e ∈ linesOf c.conts n) ∧ (∀ k ∈ a.anchors, k ∈ c.anchors) ∧
     ∀ k ∈ f.anchors, ∃ k' ∈ c.anchors, k'.key = k.key ∧ ∀ e ∈ linesOf f.table k.acl, e ∈ linesOf c.conts k'.acl := by
